@@ -13,7 +13,7 @@ MOD = "etsi.fec.trellis"
 SPEC = pathlib.Path(__file__).resolve().parent.parent / "spec" / "trellis.json"
 
 
-def run(ctx):
+def run(ctx, tables_only=False):
     repo = ctx.repo
     ci = repo.cls(MOD, "Trellis34")
     q = ci.qualname
@@ -51,7 +51,7 @@ def run(ctx):
     ctx.rule("trellis/roundtrip", "decode(encode(b)) returns exactly b, bit for bit, for all 2^144 blocks")
     ctx.rule("trellis/bytes-bits", "bytes and bits input give identical output forms; decode(as_bytes) returns the same bits packed")
     ctx.rule("trellis/interleave-inverse", "interleave and deinterleave are mutually inverse permutations of the 98 dibit positions")
-    ctx.rule("trellis/reject", "decoder: the match flag is reset for every symbol and asserted after the search in the same loop iteration")
+    ctx.rule("trellis/reject", "decoder: for every decoder state and every constellation point no encoder can emit from it, at the first, second and last symbol, points_to_tribits raises instead of decoding (constant evaluation of the real function)")
     ctx.ob("table/interleave-permutation", q, sorted(M) == list(range(98)), f"{len(M)} entries", loc)
     rows_ok = len(ST) == 64 and all(0 <= v <= 15 for v in ST) and all(len(set(ST[s * 8:s * 8 + 8])) == 8 for s in range(8))
     ctx.ob("table/transitions", q, rows_ok, "state rows with duplicate points: " + str([s for s in range(8) if len(set(ST[s * 8:s * 8 + 8])) != 8]), loc)
@@ -63,6 +63,8 @@ def run(ctx):
               and {tuple(k): v for k, v in spec["TRELLIS34_DIBITS"]} == DB and {tuple(k): v for k, v in spec["TRELLIS34_CONSTELLATION_POINTS"]} == CP)
     diffs = [i for i, (a, b) in enumerate(zip(ST, spec["TRELLIS34_ENCODER_STATE_TRANSITION"])) if a != b]
     ctx.ob("table/pinned", q, pinned, f"differs from pinned B.2.4 values (transition entries {diffs[:6]})", loc)
+    if tables_only:
+        return
 
     enc = repo.find_method(ci, "encode")
     dec = repo.find_method(ci, "decode")
@@ -142,9 +144,40 @@ def run(ctx):
         and px == list(M)
     ctx.ob("trellis/interleave-inverse", q, okp, "interleave is not the gather through the matrix / deinterleave not its inverse", il.loc)
 
-    # rejection structure
-    ok, why = reject_structure(p2t)
-    ctx.ob("trellis/reject", q, ok, why, p2t.loc)
+    # rejection of impossible points: decided on the real points_to_tribits by constant evaluation of every (decoder state,
+    # point no encoder can emit from that state) pair at the first symbol, right after the first symbol and at the last one
+    # (a valid prefix of table points leads to the state); every such stream must end in an exception, on every path.
+    bad = []
+    n_cases = 0
+    for pos in (0, 1, 48):
+        for state in (range(8) if pos else [0]):
+            row = ST[state * 8:state * 8 + 8]
+            prefix = []
+            if pos:
+                tribits = [0] * (pos - 1) + [state]
+                cur = 0
+                for t in tribits:
+                    prefix.append(ST[cur * 8 + t])
+                    cur = t
+            for point in [x for x in range(16) if x not in row]:
+                tail_state = 0
+                stream = list(prefix) + [point]
+                while len(stream) < 49:
+                    stream.append(ST[tail_state * 8 + 0])
+                    tail_state = 0
+                n_cases += 1
+                I4 = Interp(repo)
+
+                def rej(st4, stream=stream):
+                    I4.st = st4
+                    return I4.call(p2t, [list(stream)], {})
+                for st4, (k4, v4) in explore(rej, max_paths=8):
+                    if k4 == "ok":
+                        bad.append(f"state {state}, impossible point {point} at symbol {pos}: decoded instead of rejected")
+                    elif k4 == "abort":
+                        raise AnalysisError(f"{q}.points_to_tribits on a constant stream: {v4}")
+    ctx.ob("trellis/reject", q, not bad, "; ".join(bad[:3]) or f"{n_cases} (state, impossible point, position) streams all end in an exception", p2t.loc,
+           facts={"cases": n_cases})
     ctx.require("trellis/roundtrip", 1)
     ctx.require("table/transitions", 1)
 
